@@ -27,6 +27,8 @@ ENGINES = [
      "kind_free_text": "definitions of discrete components in TLA+; lattices and histories enumerated by TLC with prescribed outputs"},
     {"name": "eigreduce", "path": "spec/EigReduce.tla spec/Trace_Eig.tla spec/Rat.tla vh/eigdrv.py", "serves_properties": ["C08"],
      "kind_free_text": "exact rational reduction and characteristic polynomials in TLA+, evaluated on the real EIG routines"},
+    {"name": "blocks", "path": "spec/Blocks.tla spec/Rat.tla vh/blockdrv.py", "serves_properties": ["C18"],
+     "kind_free_text": "documented block transfer functions in TLA+ over exact rationals, verified on extracted realisations"},
     {"name": "connectivity", "path": "spec/Connectivity.tla spec/Trace_Connectivity.tla spec/Scen_Connectivity.tla vh/conndrv.py vh/netbuild.py",
      "serves_properties": ["C12"], "kind_free_text": "graph definitions in TLA+ evaluated by TLC on logged graphs of real Systems; ConnMan model-checked"},
     {"name": "lifecycle", "path": "spec/Lifecycle.tla spec/Trace_Lifecycle.tla spec/Scen_Lifecycle.tla vh/lifecycle.py vh/infeasible.py",
@@ -182,6 +184,19 @@ CHECKS["C08"] = dict(
     note=TRUSTED.replace("vh/tdsdrv.py: ranks of floats, booleans computed on floats", "vh/eigdrv.py: closeness predicates (1e-9 matrix, 1e-7 polynomial residual)")
          + "Lattice bound: n = 3, m = 1, at most one zero time constant; larger systems only through stock cases (numeric reference). "
            "The 'most associated state' clause is decided for decoupled (diagonal) systems only.")
+
+CHECKS["C18"] = dict(
+    engine="blocks", design_ref="DESIGN.md 4 (C18), 2.4",
+    technique="documented transfer functions over exact rationals in TLA+ (Blocks); realisations extracted exactly from the blocks' "
+              "equation strings on a parameter grid; TLC verifies candidate responses, the TF identity at degree+1 points and the "
+              "initial-value balance",
+    text="For each linear block and every parameter tuple of the grid (zero time constants included) the realisation is "
+         "extracted exactly (Fractions) from Block.define()'s equation strings; TLC checks that the candidate response solves the "
+         "extracted system and that output*D(s) = N(s) for the documented N, D at four rational s (a rational identity of degree "
+         "<= 3 is decided by that), that the declared initial values balance all equations for a constant input and equal the "
+         "documented steady state, and that limited variants reduce to the unlimited block inside their limits.",
+    note=TRUSTED.replace("vh/tdsdrv.py: ranks of floats, booleans computed on floats", "vh/blockdrv.py: exact Fraction evaluation of equation strings, exact linear solve (certificate re-checked by TLC)")
+         + "Nonlinear blocks are not covered. That generated code equals the equation strings is C02's clause.")
 
 NOT_APPLICABLE = [
     {"property_id": "C07", "reason": "numeric accuracy / convergence order against closed-form and matrix-exponential references: no "
